@@ -141,8 +141,12 @@ class ANMLGrammar:
         expression_list = Optional(Group(boolean_expression)) - ZeroOrMore(
             Suppress(TK_COMMA) - Group(boolean_expression)
         )
+        # a fluent reference never starts with one of these words: without the guard
+        # `(forall(T x) {...})` and `(not (a and b))` are committed to as fluent calls
+        # inside a parenthesis (the `-` below forbids backtracking) and fail to parse
         fluent_ref = Group(
-            identifier
+            ~keyword(TK_FORALL, TK_EXISTS, TK_NOT)
+            + identifier
             - Group(
                 Optional(
                     Suppress(TK_L_PARENTHESIS)
